@@ -98,3 +98,19 @@ Fixpoint write_big (wl : Z -> Z) (ps : list Z) (x : Z) : result unit :=
 Definition fmt_dispatch (len : Z) : bool := gen5_fmt_medium_test (gen5_fmt_max_digits len dpw) dpw.
 
 End Fmt.
+
+(* ------------------------------------------------------------------ fmt/power_two.rs PreparedLarge: width and the first `bits` *)
+(** math::ceil_div *)
+Definition ceil_div5 (a b : Z) : Z := if a =? 0 then 0 else (a - 1) / b + 1.
+Definition pow2_width (len w lz lr : Z) : result Z :=
+  if lz <=? len * w then Ok (Z.max (ceil_div5 (gen5_fmt_pow2_bits len w lz) lr) gen5_fmt_pow2_min_width) else Err 166.   (* usize subtraction *)
+(** `(self.width * log_radix - (len - 1) * WORD_BITS) as u32`: guard 166 the usize subtraction, 167 the value fits u32 *)
+Definition pow2_first_bits (len w lz lr : Z) : result Z :=
+  match pow2_width len w lz lr with
+  | Ok width =>
+      if (len - 1) * w <=? width * lr then
+        let bits := gen5_fmt_pow2_first_bits width lr len w in
+        if bits <? 2 ^ 32 then Ok bits else Err 167
+      else Err 166
+  | Panic r => Panic r | Err e => Err e | OutOfFuel => OutOfFuel
+  end.
